@@ -551,6 +551,53 @@ def gen_c02(wntr):
     return "\n".join(out) + "\n", dict(hist=info, hw=hw, pc=pc, tol=tol, spl=spl, names=znames, lit=lit)
 
 
+def read_resolve_reference_point(wntr):
+    """ast of WNTRSimulator.run_sim: (i) the `ref_point` of the `changes_made` test that follows `_run_postsolve_controls()` (the re-solve
+    decision), (ii) the extra arguments of the `set_reference_point` calls for that key and for 'model' (an `attrs` filter)"""
+    import ast
+    import inspect
+    import textwrap
+    import wntr.sim.core as core
+
+    tree = ast.parse(textwrap.dedent(inspect.getsource(core.WNTRSimulator.run_sim)))
+
+    def call_name(c):
+        return c.func.attr if isinstance(c.func, ast.Attribute) else getattr(c.func, "id", None)
+
+    post_line, key = None, None
+    for n in ast.walk(tree):
+        if isinstance(n, ast.Call) and call_name(n) == "_run_postsolve_controls":
+            post_line = n.lineno if post_line is None else min(post_line, n.lineno)
+    if post_line is None:
+        raise BrokenTie("run_sim no longer calls _run_postsolve_controls")
+    best = None
+    for n in ast.walk(tree):
+        if isinstance(n, ast.If) and n.lineno > post_line:
+            for c in ast.walk(n.test):
+                if isinstance(c, ast.Call) and call_name(c) == "changes_made":
+                    args = [a for a in c.args] + [k.value for k in c.keywords if k.arg == "ref_point"]
+                    if args and isinstance(args[0], ast.Constant) and (best is None or n.lineno < best[0]):
+                        best = (n.lineno, args[0].value)
+    if best is None:
+        raise BrokenTie("run_sim: no `changes_made(ref_point=...)` test after the post-solve controls")
+    key = best[1]
+
+    def filt(k):
+        res = "none"
+        for n in ast.walk(tree):
+            if isinstance(n, ast.Call) and call_name(n) == "set_reference_point" and n.args and isinstance(n.args[0], ast.Constant) and n.args[0].value == k:
+                extra = list(n.args[1:]) + [kw.value for kw in n.keywords]
+                if extra:
+                    try:
+                        vals = [str(x) for x in ast.literal_eval(extra[0])]
+                    except Exception:
+                        vals = ["<non-literal>"]
+                    res = "(some %s)" % _strlist(vals)
+        return res
+
+    return dict(key=key, filter_lean=filt(key), model_filter_lean=filt("model"))
+
+
 def gen_updater(wntr):
     """which (attribute -> Definition class) pairs `create_hydraulic_model` REALLY registers with the ModelUpdater for every
     link / junction / tank of the zoo (recorded at run time from `model_updater.update_functions`, so a registration moved
@@ -591,6 +638,14 @@ def gen_updater(wntr):
         out.append("end %s" % ns)
         out.append("")
         info[mode] = sum(len(v) for v in regs.values())
+    rs = read_resolve_reference_point(wntr)
+    out.append("/-- `WNTRSimulator.run_sim` (ast): the reference point whose `changes_made` decides, after the post-solve controls, whether the step is solved")
+    out.append("again; how many `attrs` filters the `set_reference_point` calls of that key and of 'model' carry (`none` = every registered target is followed) -/")
+    out.append("def resolveRefPoint : String := %s" % lean_str(rs["key"]))
+    out.append("def resolveRefPointFilter : Option (List String) := %s" % rs["filter_lean"])
+    out.append("def modelRefPointFilter : Option (List String) := %s" % rs["model_filter_lean"])
+    out.append("")
+    info["resolve"] = rs
     reads = trace_param_reads(wntr)
     out.append("/-- which link attributes each parameter Definition's `build` READS (recorded on a link with symbolic attributes) -/")
     out.append("def paramReads : List (String × List String) := [")
